@@ -68,13 +68,22 @@ fn main() {
     };
     if ship_child {
         // C20's second build profile (no overflow checks, no debug assertions); result goes to the parent on stdout
-        let ctx = CheckCtx::new(&prop, tier, seed, true);
-        std::process::exit(vh::props::c20::ship_child(&ctx));
+        // (strict only for the replay of one case: the search tolerates the open known findings like its parent does)
+        let ctx = CheckCtx::new(&prop, tier, seed, vh::ship::child_replay_request().is_some());
+        let code = if prop == "C20" {
+            vh::props::c20::ship_child(&ctx)
+        } else if let Some(hp) = vh::props::histprops::by_id(&prop) {
+            vh::props::histprops::ship_child(&ctx, hp)
+        } else {
+            vh::ship::child_error("this property has no ship-profile sub-check");
+            2
+        };
+        std::process::exit(code);
     }
     if let Some(path) = replay {
         let ctx = CheckCtx::new(&prop, tier, seed, true);
         vh::driver::CONFIRMING.store(true, std::sync::atomic::Ordering::Relaxed);
-        match load_replay(&path).and_then(|(sub, case)| (entry.replay)(&ctx, &sub, case)) {
+        match load_replay(&path).and_then(|(sub, case)| if sub.starts_with("ship.") && prop != "C20" { vh::ship::replay(&ctx, &sub, &case) } else { (entry.replay)(&ctx, &sub, case) }) {
             Ok(Some(v)) => {
                 println!("violation detail: rule={} sig={} :: {}", v.rule, v.sig, v.detail);
                 println!("VIOLATION property={} replay={}", prop, path.display());
